@@ -55,12 +55,20 @@ type Contract struct {
 	Assumed    bool
 	NoInline   bool
 	Loops      map[int]*LoopSpec
+	// CallAsserts: "at call F@n assert [label] expr" — assertions over the function's own locals, checked right before
+	// the n-th (source order) call of F in this function; key "call:F@n"
+	CallAsserts map[string][]*Clause
+	callSeen    map[string]bool
 	Props      map[string]bool // property ids mentioned by labels
 	Obj        *types.Func
 	recvExpr   ast.Expr
 	funcName   string
 	Sig        *types.Signature
 	funcType   string // named func type for "functype" contracts
+	// Alts: further assumed contracts of the same (interface) method, written by different work areas for different
+	// dynamic types of an interface-typed parameter (each restricted by `requires typeof(p) == type(T)`); the call site
+	// picks the one whose accepted types contain the statically known dynamic type of the argument (see pickAlt)
+	Alts []*Contract
 	// Uninterp: the body is never inlined nor verified; calls use the contract only
 }
 
@@ -128,7 +136,7 @@ func newSpecDB() *SpecDB {
 var labelRe = regexp.MustCompile(`^\[([A-Za-z0-9_.,\- ]+)\]`)
 
 var clauseKw = map[string]bool{"requires": true, "ensures": true, "modifies": true, "panics": true, "pure": true,
-	"assumed": true, "invariant": true, "decreases": true, "noinline": true}
+	"assumed": true, "invariant": true, "decreases": true, "noinline": true, "at": true}
 
 // parseSpecFile reads //@ lines of one file. pkgPath is the package whose scope resolves unqualified Go names
 // (for prelude files it is set by `//@ package "path"`).
@@ -294,7 +302,7 @@ func (db *SpecDB) parseSpecFile(file string, pkgPath string) {
 			db.Axioms = append(db.Axioms, &Axiom{strings.TrimSpace(rest[:i]), e, rest[i+1:], pkgPath, copyMap(imports)})
 			cur, curLoop = nil, nil
 		case "func", "functype":
-			c := &Contract{File: file, Line: en.ln, PkgPath: pkgPath, Imports: copyMap(imports), SigSrc: body, Loops: map[int]*LoopSpec{}, Props: map[string]bool{}}
+			c := &Contract{File: file, Line: en.ln, PkgPath: pkgPath, Imports: copyMap(imports), SigSrc: body, Loops: map[int]*LoopSpec{}, Props: map[string]bool{}, CallAsserts: map[string][]*Clause{}}
 			sigSrc := body
 			if w == "functype" {
 				// functype pkg.Name(params) results
@@ -330,6 +338,18 @@ func (db *SpecDB) parseSpecFile(file string, pkgPath string) {
 				errf(en.ln, "clause outside a func block")
 				continue
 			}
+			atSite := ""
+			if w == "at" {
+				// at call F@n assert [label] expr
+				f := strings.Fields(rest)
+				if len(f) < 4 || f[0] != "call" || !strings.HasPrefix(f[2], "assert") {
+					errf(en.ln, "expected: at call <Callee>@<n> assert [label] <expr>")
+					continue
+				}
+				atSite = "call:" + f[1]
+				i := strings.Index(rest, "assert")
+				rest = strings.TrimSpace(rest[i+len("assert"):])
+			}
 			label := ""
 			if m := labelRe.FindStringSubmatch(rest); m != nil {
 				label = strings.TrimSpace(m[1])
@@ -346,6 +366,13 @@ func (db *SpecDB) parseSpecFile(file string, pkgPath string) {
 				}
 			}
 			switch w {
+			case "at":
+				e, err := parseExpr(rest)
+				if err != nil {
+					errf(en.ln, "%v", err)
+					continue
+				}
+				cur.CallAsserts[atSite] = append(cur.CallAsserts[atSite], &Clause{Kind: "assert", Label: label, Src: rest, E: e})
 			case "pure":
 				cur.Pure = true
 			case "assumed":
@@ -695,6 +722,10 @@ func (db *SpecDB) resolveContracts(P *Program) {
 			continue
 		}
 		if prev, dup := db.Contracts[c.Key]; dup {
+			if prev.Assumed && c.Assumed && len(typeGuards(prev)) > 0 && len(typeGuards(c)) > 0 {
+				prev.Alts = append(prev.Alts, c)
+				continue
+			}
 			db.Errors = append(db.Errors, fmt.Sprintf("%s:%d: duplicate contract for %s (also %s:%d)", c.File, c.Line, c.Key, prev.File, prev.Line))
 			continue
 		}
@@ -761,4 +792,34 @@ func loadSpecs(P *Program, dirs []string) *SpecDB {
 	}
 	db.resolveContracts(P)
 	return db
+}
+
+// typeGuards: the atoms `typeof(p) == type(T)` of the requires clauses of c, as (parameter name, type expression) pairs.
+func typeGuards(c *Contract) [][2]interface{} {
+	var out [][2]interface{}
+	var walk func(x Expr)
+	walk = func(x Expr) {
+		switch x := x.(type) {
+		case *EBin:
+			if x.Op == "==" {
+				if call, ok := x.X.(*ECall); ok {
+					if id, ok := call.Fun.(*EIdent); ok && id.Name == "typeof" && len(call.Args) == 1 {
+						if pn, ok := call.Args[0].(*EIdent); ok {
+							if tl, ok := x.Y.(*ETypeLit); ok {
+								out = append(out, [2]interface{}{pn.Name, tl.T})
+							}
+						}
+					}
+				}
+			}
+			walk(x.X)
+			walk(x.Y)
+		case *EUn:
+			walk(x.X)
+		}
+	}
+	for _, r := range c.Requires {
+		walk(r.E)
+	}
+	return out
 }
